@@ -583,7 +583,18 @@ func (n *node) RouteLinkPID(pid gen.PID, target gen.PID) error {
 			return gen.ErrProcessUnknown
 		}
 		lib.VerifPoint("link.add", target)
-		return n.targetManager.AddLink(pid, target)
+		if err := n.targetManager.AddLink(pid, target); err != nil {
+			return err
+		}
+		// the target could have gone after the check above: its termination
+		// would not see this relation and the requester would never be notified
+		if _, exist := n.processes.Load(target); exist == false {
+			if n.targetManager.RemoveLink(pid, target) == nil {
+				return gen.ErrProcessUnknown
+			}
+			// already taken by the termination of the target: the notification is on its way
+		}
+		return nil
 	}
 
 	// remote target
@@ -647,7 +658,18 @@ func (n *node) RouteLinkProcessID(pid gen.PID, target gen.ProcessID) error {
 			return gen.ErrProcessUnknown
 		}
 		lib.VerifPoint("link.add", target)
-		return n.targetManager.AddLink(pid, target)
+		if err := n.targetManager.AddLink(pid, target); err != nil {
+			return err
+		}
+		// the target could have gone after the check above: its termination
+		// would not see this relation and the requester would never be notified
+		if _, exist := n.names.Load(target.Name); exist == false {
+			if n.targetManager.RemoveLink(pid, target) == nil {
+				return gen.ErrProcessUnknown
+			}
+			// already taken by the termination of the target: the notification is on its way
+		}
+		return nil
 	}
 
 	// remote target
@@ -708,7 +730,18 @@ func (n *node) RouteLinkAlias(pid gen.PID, target gen.Alias) error {
 			return gen.ErrAliasUnknown
 		}
 		lib.VerifPoint("link.add", target)
-		return n.targetManager.AddLink(pid, target)
+		if err := n.targetManager.AddLink(pid, target); err != nil {
+			return err
+		}
+		// the target could have gone after the check above: its termination
+		// would not see this relation and the requester would never be notified
+		if _, exist := n.aliases.Load(target); exist == false {
+			if n.targetManager.RemoveLink(pid, target) == nil {
+				return gen.ErrAliasUnknown
+			}
+			// already taken by the termination of the target: the notification is on its way
+		}
+		return nil
 	}
 
 	// remote target
@@ -779,6 +812,15 @@ func (n *node) RouteLinkEvent(pid gen.PID, target gen.Event) ([]gen.MessageEvent
 		lib.VerifPoint("link.add", target)
 		if err := n.targetManager.AddLink(pid, target); err != nil {
 			return nil, err
+		}
+		// the event could have gone after the check above: its termination
+		// would not see this relation and the requester would never be notified
+		if _, exist := n.events.Load(target); exist == false {
+			if n.targetManager.RemoveLink(pid, target) == nil {
+				return nil, gen.ErrEventUnknown
+			}
+			// already taken by the termination of the event: the notification is on its way
+			return nil, nil
 		}
 
 		lib.VerifPoint("sub.snapshot", target)
@@ -901,7 +943,18 @@ func (n *node) RouteMonitorPID(pid gen.PID, target gen.PID) error {
 			}
 		}
 		lib.VerifPoint("link.add", target)
-		return n.targetManager.AddMonitor(pid, target)
+		if err := n.targetManager.AddMonitor(pid, target); err != nil {
+			return err
+		}
+		// the target could have gone after the check above: its termination
+		// would not see this relation and the requester would never be notified
+		if _, exist := n.processes.Load(target); exist == false {
+			if n.targetManager.RemoveMonitor(pid, target) == nil {
+				return gen.ErrProcessUnknown
+			}
+			// already taken by the termination of the target: the notification is on its way
+		}
+		return nil
 	}
 
 	// remote target
@@ -968,7 +1021,18 @@ func (n *node) RouteMonitorProcessID(pid gen.PID, target gen.ProcessID) error {
 			}
 		}
 		lib.VerifPoint("link.add", target)
-		return n.targetManager.AddMonitor(pid, target)
+		if err := n.targetManager.AddMonitor(pid, target); err != nil {
+			return err
+		}
+		// the target could have gone after the check above: its termination
+		// would not see this relation and the requester would never be notified
+		if _, exist := n.names.Load(target.Name); exist == false {
+			if n.targetManager.RemoveMonitor(pid, target) == nil {
+				return gen.ErrProcessUnknown
+			}
+			// already taken by the termination of the target: the notification is on its way
+		}
+		return nil
 	}
 
 	// remote target
@@ -1031,7 +1095,18 @@ func (n *node) RouteMonitorAlias(pid gen.PID, target gen.Alias) error {
 			return gen.ErrAliasUnknown
 		}
 		lib.VerifPoint("link.add", target)
-		return n.targetManager.AddMonitor(pid, target)
+		if err := n.targetManager.AddMonitor(pid, target); err != nil {
+			return err
+		}
+		// the target could have gone after the check above: its termination
+		// would not see this relation and the requester would never be notified
+		if _, exist := n.aliases.Load(target); exist == false {
+			if n.targetManager.RemoveMonitor(pid, target) == nil {
+				return gen.ErrAliasUnknown
+			}
+			// already taken by the termination of the target: the notification is on its way
+		}
+		return nil
 	}
 
 	// remote target
@@ -1101,6 +1176,15 @@ func (n *node) RouteMonitorEvent(pid gen.PID, target gen.Event) ([]gen.MessageEv
 		lib.VerifPoint("link.add", target)
 		if err := n.targetManager.AddMonitor(pid, target); err != nil {
 			return nil, err
+		}
+		// the event could have gone after the check above: its termination
+		// would not see this relation and the requester would never be notified
+		if _, exist := n.events.Load(target); exist == false {
+			if n.targetManager.RemoveMonitor(pid, target) == nil {
+				return nil, gen.ErrEventUnknown
+			}
+			// already taken by the termination of the event: the notification is on its way
+			return nil, nil
 		}
 
 		lib.VerifPoint("sub.snapshot", target)
